@@ -219,3 +219,35 @@ pub assume_specification<S: AsRef<std::ffi::OsStr>>[ std::path::PathBuf::set_ext
 pub uninterp spec fn asosstr<S>(s: S) -> Seq<char>;
 pub broadcast axiom fn ax_asosstr_str(s: &str)
     ensures #[trigger] asosstr::<&str>(s) == s@;
+
+// ---- further std / chrono API, specified so that code using it is verified against the contracts ------------
+// (uninterpreted where the semantics is outside the verifier: a change that switches to these functions then
+//  fails the postcondition it no longer implements instead of leaving the unit undecided)
+pub uninterp spec fn dt_timestamp<Tz: chrono::TimeZone>(d: &chrono::DateTime<Tz>) -> i64;
+pub assume_specification<Tz: chrono::TimeZone>[ chrono::DateTime::<Tz>::timestamp ](d: &chrono::DateTime<Tz>) -> (r: i64)
+    ensures r == dt_timestamp(d);
+pub uninterp spec fn dt_timestamp_millis<Tz: chrono::TimeZone>(d: &chrono::DateTime<Tz>) -> i64;
+pub assume_specification<Tz: chrono::TimeZone>[ chrono::DateTime::<Tz>::timestamp_millis ](d: &chrono::DateTime<Tz>) -> (r: i64)
+    ensures r == dt_timestamp_millis(d);
+pub uninterp spec fn i64_div_euclid(a: i64, b: i64) -> i64;
+pub uninterp spec fn i64_rem_euclid(a: i64, b: i64) -> i64;
+pub assume_specification[ i64::div_euclid ](a: i64, b: i64) -> (r: i64)
+    requires b != 0 && !(a == i64::MIN && b == -1),
+    ensures r == i64_div_euclid(a, b);
+pub assume_specification[ i64::rem_euclid ](a: i64, b: i64) -> (r: i64)
+    requires b != 0 && !(a == i64::MIN && b == -1),
+    ensures r == i64_rem_euclid(a, b);
+
+pub assume_specification<T>[ core::mem::drop ](x: T);
+
+#[verifier::external_type_specification]
+#[verifier::external_body]
+pub struct ExSink(std::io::Sink);
+pub assume_specification[ std::io::sink ]() -> (r: std::io::Sink);
+/// a writer that discards everything is attached to nothing
+pub uninterp spec fn nowhere() -> Seq<char>;
+impl VWritable for std::io::Sink {
+    open spec fn wsrc(&self) -> WSrc { WSrc { path: nowhere(), flags: OpenFlags { write: false, create: false, append: false, truncate: false }, buffered: None } }
+}
+pub assume_specification<T>[ core::mem::replace ](dest: &mut T, src: T) -> (r: T)
+    ensures *final(dest) == src, r == *old(dest);
